@@ -183,7 +183,15 @@ IsSysLevel(e) == e.op \in {"CreateLocation", "Restart"} \/ Uncreated(e) \/ (impl
 \* write is the one made to fail, the answer is still the right one and nothing the caller was told
 \* depends on the write (the expired item stays in storage, invisible as before): the sentence "the
 \* operation reports an error rather than success" is about changes the caller asked for.
-ReadOnlyOp(e) == e.op \in {"SearchFacts", "SearchRules", "ListRules", "GetFact", "GetRule", "GetParents", "StateSize"}
+\* An event writes only through what its rules do (actions that call Env.AddFact, the removal of a one-shot
+\* rule after a tick); where no stored rule has such an action and the event is no tick, it only reads.
+PureEvent(e) ==
+  /\ e.op = "ProcessEvent" /\ ~Has(Norm(e.val), "trigger!")
+  /\ \A a \in DOMAIN mem : \A i \in DOMAIN mem[a] :
+        IsRuleItem(mem[a][i]) =>
+          \A act \in ActionsOf(RuleBody(mem[a][i])) :
+             ActionCode(act) \in DOMAIN Acts => Acts[ActionCode(act)].kind # "addfact"
+ReadOnlyOp(e) == e.op \in {"SearchFacts", "SearchRules", "ListRules", "GetFact", "GetRule", "GetParents", "StateSize"} \/ PureEvent(e)
 AcceptFault(e) ==
   /\ e.fault
   /\ e.res.c # "ok" \/ ReadOnlyOp(e)
